@@ -906,7 +906,15 @@ loop:
 				// writeGoAway does the two in the opposite order.
 				atomic.StoreUint32(&sc.lastID, fr.Stream())
 
+				if verifOn {
+					vStep(sc, "sl.publish", fr.Stream())
+				}
+
 				if openStreams >= int(sc.st.maxStreams) || wasClosing || isClosing() {
+					if verifOn {
+						vStep(sc, "sl.refuse", fr.Stream())
+					}
+
 					if sc.debug {
 						if wasClosing {
 							sc.logger.Printf("Closing the connection. Rejecting stream %d\n", fr.Stream())
@@ -929,6 +937,10 @@ loop:
 					}
 
 					continue
+				}
+
+				if verifOn {
+					vStep(sc, "sl.accept", fr.Stream())
 				}
 
 				strm = NewStream(fr.Stream(), curInitialWindow)
@@ -1192,7 +1204,15 @@ func (sc *serverConn) writeGoAway(strm uint32, code ErrorCode, message string) {
 
 	atomic.StoreInt32((*int32)(&sc.state), int32(connStateClosed))
 
+	if verifOn {
+		vStep(sc, "ga.flag", 0)
+	}
+
 	last := atomic.LoadUint32(&sc.lastID)
+
+	if verifOn {
+		vStep(sc, "ga.read", last)
+	}
 
 	// Streams refused since the first GOAWAY still move lastID on, but the
 	// last-stream-id already announced must not grow (RFC 7540 6.8).
@@ -1214,6 +1234,10 @@ func (sc *serverConn) writeGoAway(strm uint32, code ErrorCode, message string) {
 	fr.SetBody(ga)
 
 	sc.write(fr)
+
+	if verifOn {
+		vStep(sc, "ga.sent", last)
+	}
 
 	if strm != 0 {
 		atomic.StoreUint32(&sc.closeRef, last)
